@@ -284,6 +284,7 @@ pub fn i64_alphabet() -> Vec<(String, i64)> {
         ("-i32max-2".into(), -(1i64 << 31) - 1),
         ("2^32".into(), 1 << 32),
         ("2^53".into(), 1 << 53),
+        ("2^53+1".into(), (1 << 53) + 1),
         ("-2^53".into(), -(1i64 << 53)),
         ("0x55".into(), 0x5555555555555555),
         ("0xaa".into(), 0xaaaaaaaaaaaaaaaau64 as i64),
@@ -662,7 +663,8 @@ pub fn alphabet(ty: VariantType, codec: Codec, large: bool) -> Vec<LV> {
             for (l, f) in f32_short() {
                 out.push(lv(&format!("scale={}", l), UDim::new(f, 7)));
             }
-            for (l, i) in [("min", i32::MIN), ("max", i32::MAX), ("-1", -1)] {
+            // (offsets no f32 holds: an integer field of a composite must not pass through a float)
+            for (l, i) in [("min", i32::MIN), ("max", i32::MAX), ("-1", -1), ("2^24+1", 16_777_217), ("-2^25-3", -33_554_435), ("max-1", i32::MAX - 1)] {
                 out.push(lv(&format!("offset={}", l), UDim::new(0.5, i)));
             }
         }
@@ -672,7 +674,7 @@ pub fn alphabet(ty: VariantType, codec: Codec, large: bool) -> Vec<LV> {
                 out.push(lv(&format!("xs={}", l), UDim2::new(UDim::new(f, 2), UDim::new(3.0, 4))));
                 out.push(lv(&format!("ys={}", l), UDim2::new(UDim::new(1.0, 2), UDim::new(f, 4))));
             }
-            for (l, i) in [("min", i32::MIN), ("max", i32::MAX), ("-1", -1)] {
+            for (l, i) in [("min", i32::MIN), ("max", i32::MAX), ("-1", -1), ("2^24+1", 16_777_217), ("-2^25-3", -33_554_435), ("max-1", i32::MAX - 1)] {
                 out.push(lv(&format!("xo={}", l), UDim2::new(UDim::new(1.0, i), UDim::new(3.0, 4))));
                 out.push(lv(&format!("yo={}", l), UDim2::new(UDim::new(1.0, 2), UDim::new(3.0, i))));
             }
